@@ -617,7 +617,7 @@ func yamlBlockOK(s string) bool {
 		return false
 	}
 	for _, r := range s {
-		if yamlSpecial(r) || r == '\t' {
+		if r != '\n' && (yamlSpecial(r) || r == '\t') {
 			return false
 		}
 	}
